@@ -756,6 +756,13 @@ pub fn work_list(cfg: &RunCfg) -> WorkList {
     for w in corpus::delegate_groups().iter() {
         fixed.push(Item::new(w, "delegate-groups"));
     }
+    // a backreference compared against text whose characters have other widths than the
+    // captured ones: needs a capture of two characters and five bytes of text (seed S8-C05)
+    for w in ["(..)\\1", "(a.)\\1", "(?=.(..))\\1", "(.a)\\1", "(?i)(a.)\\1", "(..)(?=)\\1", "(?<n>..)\\k<n>"].iter() {
+        let mut it = Item::new(w, "backref-width");
+        it.n_extra = 2;
+        fixed.push(it);
+    }
     if cfg.prop != "C05" {
         for w in corpus::wide_cut().iter() {
             let mut it = Item::new(w, "wide-cut");
